@@ -18,6 +18,7 @@ type ctxNode struct {
 	children []*ctxNode
 	cancel   func(cause error)
 	after    []*afterFn // context.AfterFunc registrations
+	onClose  func()     // run once when the twin closes (deadline contexts: cancel the real derived contexts)
 }
 
 func (r *rtime) lookupCtx(ctx context.Context) *ctxNode {
@@ -48,6 +49,9 @@ func (r *rtime) registerCtx(parent context.Context, ctx context.Context, cancel 
 func (n *ctxNode) closeTree() {
 	if !n.twin.closed {
 		n.twin.closeNow()
+		if n.onClose != nil {
+			n.onClose()
+		}
 	}
 	for _, a := range n.after {
 		if !a.stopped && !a.started {
@@ -88,20 +92,58 @@ func CtxWithCancelCause(parent context.Context) (context.Context, context.Cancel
 	return ctx, func(cause error) { n.doCancel(cause) }
 }
 
+// deadlineCtx is a context that ends by a deadline, with the real runtime's
+// semantics for derived contexts: once it has expired, it and every context
+// derived from it (by instrumented or un-instrumented code) report
+// Err() == context.DeadlineExceeded; when it ends because its parent was
+// cancelled or its cancel function was called, context.Canceled. It is built on
+// a real WithCancelCause context (inner) whose Done channel it shares; Value
+// goes to the parent, which hides inner from the standard library, so derived
+// contexts are attached through the AfterFunc hook below and cancelled —
+// without a scheduling point — right when the model twin closes.
 type deadlineCtx struct {
-	context.Context
+	inner    context.Context
+	parent   context.Context
 	deadline time.Time
+	expired  bool
+	fns      map[int]func()
+	next     int
 }
 
 func (d *deadlineCtx) Deadline() (time.Time, bool) { return d.deadline, true }
+func (d *deadlineCtx) Done() <-chan struct{}       { return d.inner.Done() }
+func (d *deadlineCtx) Value(key any) any           { return d.parent.Value(key) }
 func (d *deadlineCtx) Err() error {
-	if err := d.Context.Err(); err != nil {
-		if context.Cause(d.Context) == context.DeadlineExceeded {
-			return context.DeadlineExceeded
-		}
-		return err
+	if d.expired {
+		return context.DeadlineExceeded
 	}
-	return nil
+	return d.inner.Err()
+}
+
+// AfterFunc is the hook context.WithCancel* uses for parents it does not know.
+func (d *deadlineCtx) AfterFunc(f func()) func() bool {
+	if d.inner.Err() != nil {
+		f()
+		return func() bool { return false }
+	}
+	id := d.next
+	d.next++
+	d.fns[id] = f
+	return func() bool {
+		_, ok := d.fns[id]
+		delete(d.fns, id)
+		return ok
+	}
+}
+
+// runFns cancels the real contexts derived from d (in registration order).
+func (d *deadlineCtx) runFns() {
+	for id := 0; id < d.next; id++ {
+		if f, ok := d.fns[id]; ok {
+			delete(d.fns, id)
+			f()
+		}
+	}
 }
 
 func CtxWithDeadline(parent context.Context, d time.Time) (context.Context, context.CancelFunc) {
@@ -114,17 +156,19 @@ func CtxWithDeadlineCause(parent context.Context, d time.Time, cause error) (con
 	}
 	r := rt
 	inner, cancel := context.WithCancelCause(parent)
-	ctx := &deadlineCtx{Context: inner, deadline: d}
+	ctx := &deadlineCtx{inner: inner, parent: parent, deadline: d, fns: map[int]func(){}}
 	n := r.registerCtx(parent, ctx, cancel)
+	n.onClose = ctx.runFns
 	dur := d.Sub(r.modelTime())
 	tm := r.newTimer(dur, 0, nil)
 	tm.ch = nil
 	tm.envFn = func() {
 		if inner.Err() == nil {
+			ctx.expired = true
 			if cause == nil {
 				cancel(context.DeadlineExceeded)
 			} else {
-				cancel(context.DeadlineExceeded) // Err must be DeadlineExceeded; cause is lost (unused by kit)
+				cancel(cause)
 			}
 			n.closeTree()
 		}
